@@ -37,6 +37,14 @@ def run(ck, rng, tier):
                 if rng.random() < 0.2 and n - nmiss > 2:
                     ytm[i] = MISSING
                     nmiss += 1
+        if c % 7 == 5:
+            # truths and predictions in small units (1e-6 .. 1e-7) with an accurate prediction (errors of about 1 %):
+            # every figure of merit is a ratio or scales with the unit
+            kind = "small_units"
+            u = rng.choice((1e-6, 1e-7))
+            yt = [u * rng.uniform(2.1, 2.9) for _ in range(n)]
+            yp = [y * (1.0 + rng.gauss(0, 0.01)) for y in yt]
+            ytm = list(yt)
         if c % 7 == 3:
             # truths NEXT TO the missing-value code but outside its +-0.1 window (ordinary numbers, all of them count),
             # with one or two inside the window (missing)
@@ -86,6 +94,9 @@ def run(ck, rng, tier):
     if rc != 0 or len(outs) != len(meta):
         ck.broken("driver drv_stat", "rc=%s cases=%d/%d %s" % (rc, len(outs), len(meta), err[-800:]))
         return
+    for op_ in ("plsstat",):
+        sel_ = [k for k in range(len(meta)) if meta[k][0] == op_]
+        vf.reuse_scan(ck, "drv_stat:" + op_, [outs[k] for k in sel_], lambda j, sel_=sel_: {"op": op_, "case": str(meta[sel_[j]][1:3])[:1500]})
     checks = vf.Checks()
     cv, cm, cf = vf.coq_vec, vf.coq_mat, vf.coq_f
     base_auc = None
@@ -99,12 +110,15 @@ def run(ck, rng, tier):
             mse = ((p - t) ** 2).mean(); mae = np.abs(p - t).mean(); r2 = 1 - ((p - t) ** 2).sum() / ((t - t.mean()) ** 2).sum()
             bad = None
             rel = lambda a, b: abs(a - b) <= 1e-9 * max(abs(a), abs(b), 1e-300) + 1e-12 * (abs(b) + 1e-300)
+            rel7 = lambda a, b: abs(a - b) <= 1e-7 * max(abs(a), abs(b), 1e-300)
             if not rel(o["mse"], mse): bad = ("MSE", "definition", "MSE %r vs %r" % (o["mse"], mse))
             elif not rel(o["mae"], mae): bad = ("MAE", "definition", "MAE %r vs %r" % (o["mae"], mae))
             elif abs(o["r2"] - r2) > 1e-9 * max(1, abs(r2)): bad = ("R2", "definition", "R2 %r vs %r" % (o["r2"], r2))
             elif not rel(o["rmse"] ** 2, o["mse"]): bad = ("RMSE", "rmse_sq", "RMSE^2 %r != MSE %r" % (o["rmse"] ** 2, o["mse"]))
             elif o["mae"] > o["rmse"] * (1 + 1e-12): bad = ("MAE", "mae_le_rmse", "MAE %r > RMSE %r" % (o["mae"], o["rmse"]))
             elif o["r2"] > 1 + 1e-12: bad = ("R2", "r2_le_1", "R2 %r > 1" % o["r2"])
+            elif len(t) > 1 and ((t - t.mean()) ** 2).sum() > 0 and abs(t.mean()) <= 100 * t.std() and not rel7(o["bias"], abs(1 - (p * (t - t.mean())).sum() / (t * (t - t.mean())).sum()) if abs(1 - (p * (t - t.mean())).sum() / (t * (t - t.mean())).sum()) > 1e-6 else o["bias"]):
+                bad = ("BIAS", "definition", "BIAS %r vs |1 - sum yp (yt - mean) / sum yt (yt - mean)| = %r" % (o["bias"], abs(1 - (p * (t - t.mean())).sum() / (t * (t - t.mean())).sum())))
             elif kind == "perfect" and (o["r2"] != 1.0 or o["mse"] != 0.0 or o["mae"] != 0.0): bad = ("R2", "perfect", "perfect prediction gives r2=%r mse=%r mae=%r" % (o["r2"], o["mse"], o["mae"]))
             if bad:
                 ck.fail(bad[0], bad[1], bad[2], {"ytrue": yt, "ypred": yp})
